@@ -40,6 +40,13 @@ def expected_points(sc, trans, step, cfg_after):
 
 class C08(InterpProp):
     id = 'C08'
+    # observables compared with the model (see InterpProp.normalize)
+    cmp_eff = ('cond', 'exit', 'action', 'entry')
+    cmp_step = ()
+    cmp_slot = ()
+    cmp_callbacks = False
+    cmp_err = 'full'
+    cmp_time = False
     quick_cases = 800
     thorough_cases = 30000
     n_ops = 24
